@@ -509,7 +509,8 @@ def shrink_loops(ctx):
     # roles: restart flag = the variable the outer loop tests; exit flag / row from the traversal test
     t1 = [e for e in tr.of("test") if e.node is L1["node"]]
     flag = _only_loopvar(t1[0].cond) if len(t1) == 1 else None
-    ctx.ob("LOOP-test", site, "the scan is repeated while the restart flag is set", flag is not None, q.short(t1[0].cond, 80) if t1 else "")
+    # how the repetition is driven (a flag variable / a helper's verdict) is an idiom, not the property: unrecognised = no verdict
+    ctx.anchor(site, "the scan is repeated while a restart flag is set", flag is not None, q.short(t1[0].cond, 80) if t1 else "")
     t2 = [e for e in tr.of("test") if e.node is L2["node"]]
     ex = rw = None
     if len(t2) == 1:
@@ -523,7 +524,7 @@ def shrink_loops(ctx):
                 if nm and cj == T.mk_cmp("!=", LV(l2, nm), T.NONE):
                     rw = nm
     ok = ex is not None and rw is not None and len(q.conjuncts(t2[0].cond)) == 2
-    ctx.ob("LOOP-test", site, "rows are visited while the scan has not finished and there is a row", ok, q.short(t2[0].cond, 120) if t2 else "")
+    ctx.anchor(site, "rows are visited while the scan has not finished and there is a row", ok, q.short(t2[0].cond, 120) if t2 else "")
     # bucket size of the scan
     names = []
     for a_ in ce[0].args:
